@@ -19,14 +19,14 @@ import logging
 from harness.core import Result
 from harness import vloop, wire
 from harness import peer as P
-from harness.svc import RawCodec, Service, cps
+from harness.svc import RawCodec, Service, cps, exc_name
 
 PROPERTY = 'C18'
 THEOREM_FILES = ['Props/C18.v']
 ALLOWED_AXIOMS = []
 LABEL = ('full (dispatch, read-only rule, fast path and use-site def-use proved for all listener lists; '
          'the flow of the re-bound names into the wire writers is tied end to end only)')
-TRUSTED = ['tools/facts_C18.py (fail-closed ast translator of the hook methods, the dispatch class '
+TRUSTED = ['tools/facts_C18.py (fail-closed translator: hook methods probed from the imported package, dispatch class '
            'hierarchy and the hook call sites with their def-use tags -> coq/Gen/FactsC18.v)',
            'modelled, not verified: Python attribute lookup (instance __dict__ before class), __slots__ '
            'semantics of object.__setattr__, keyword/positional argument binding, defaultdict',
@@ -54,14 +54,45 @@ ALL_EVENTS = sorted(MUTABLE)
 UNKNOWN_NAMES = ['nope', 'extra_field']
 FLAG = '__interrupted__'
 MISSING = object()
+FLAG_SLOT = [True]
 
 
 # ---- what the implementation exposes (used to build well-formed calls; the model has its own copy,
 # regenerated from the source by tools/facts_C18.py) --------------------------------------------
 
+_DISPATCH_CLASS = {}
+
+
 def dispatch_class(side):
+    """the class of the object `listen()` registers on: type(<Channel|Server>().__dispatch__) -- found by
+    role, not by the (private) name it has in grpclib.events"""
+    if side not in _DISPATCH_CLASS:
+        import asyncio
+        from grpclib.client import Channel
+        from grpclib.server import Server
+        loop = asyncio.new_event_loop()
+        try:
+            asyncio.set_event_loop(loop)
+            target = Channel() if side == 'C' else Server([])
+            _DISPATCH_CLASS[side] = type(target.__dispatch__)
+        finally:
+            asyncio.set_event_loop(None)
+            loop.close()
+    return _DISPATCH_CLASS[side]
+
+
+def flag_of(event):
+    """the interruption flag of an event, None when this build keeps it somewhere else"""
+    v = getattr(event, FLAG, None)
+    return None if v is None else bool(v)
+
+
+def has_flag_slot():
     from grpclib import events
-    return events._DispatchChannelEvents if side == 'C' else events._DispatchServerEvents
+    try:
+        return hasattr(events.SendMessage(message=None), FLAG)
+    except Exception:
+        return False
 
 
 def hooks_of(side):
@@ -146,7 +177,7 @@ def make_listener(key, lid, acts, values, rec, mutable):
             r['raised'] = type(e).__name__
             raise
         finally:
-            r['flag_after'] = bool(event.__interrupted__)
+            r['flag_after'] = flag_of(event)
     return listener
 
 
@@ -308,11 +339,13 @@ def oracle_call(side, ob):
         return bad                 # a call the library never makes (TypeError from argument binding)
     if reg and not log:
         bad.append(('registered listeners were not invoked', 'not-invoked'))
+    def stopped(r):
+        return (r['flag_after'] if r['flag_after'] is not None else r['interrupt']) or r['raised']
     for r in inv[:-1]:
-        if r['flag_after'] or r['raised']:
+        if stopped(r):
             bad.append(('listener %d ran after listener %d interrupted / raised' %
                         (inv[inv.index(r) + 1]['lid'], r['lid']), 'ran-after-interrupt'))
-    if inv and len(log) < len(reg) and not (inv[-1]['flag_after'] or inv[-1]['raised']):
+    if inv and len(log) < len(reg) and not stopped(inv[-1]):
         bad.append(('listener %d was skipped although nobody interrupted' % reg[len(log)], 'skipped'))
     for r in inv:
         for f, why in r['ro_bad']:
@@ -428,7 +461,7 @@ def gen_acts(rng, evname, wild=True, flag_kind='s'):
             f, guarded = rng.choice(mutable), rng.random() < 0.5
         elif r < 0.80 and ro:
             f, guarded = rng.choice(ro), rng.random() < (0.75 if wild else 1.0)
-        elif r < 0.92 or not wild:
+        elif r < 0.92 or not wild or not FLAG_SLOT[0]:
             f, guarded = rng.choice(UNKNOWN_NAMES), rng.random() < (0.75 if wild else 1.0)
         else:
             # `event.__interrupted__ += v` is modelled only while the slot still holds the bool that
@@ -603,7 +636,7 @@ class Call:
 
     async def handle(self, stream, tag):
         from grpclib.const import Status
-        from grpclib.exceptions import GRPCError
+        from grpclib.exceptions import GRPCError, ProtocolError
         c = self.case
         mid = c.get('mid')
         self.seen['handler'] = list(tag)
@@ -648,13 +681,29 @@ class Call:
         if c['status'] != 'early':
             for r in rest:
                 await stream.send_message(bytes(r))
-        if c['status'] != 'ok':
+        extra = (c.get('app') or {}).get('extra_s', [])
+        sent = len(c['reps']) if c['status'] != 'early' else 0
+
+        async def refused(op, fn, *a, **kw):
+            # an operation the library must refuse before emitting anything; the handler copes and goes on
+            try:
+                await fn(*a, **kw)
+                self.seen.setdefault('accepted', []).append(op)
+            except ProtocolError:
+                self.seen.setdefault('refused', []).append(op)
+        if 'send_initial_metadata' in extra and (c['explicit_im'] or mid or sent):
+            await refused('send_initial_metadata', stream.send_initial_metadata, metadata=md_pairs([98]))
+        if 'send_message' in extra and c['card'][1] == 'U' and sent:
+            await refused('send_message', stream.send_message, b'again')
+        if c['status'] not in ('ok', 'reset'):
             if c['explicit_tm']:
                 await stream.send_trailing_metadata(status=Status.INTERNAL, metadata=md_pairs(c['tm0']))
             else:
                 raise GRPCError(Status.INTERNAL)
         elif c['explicit_tm']:
             await stream.send_trailing_metadata(metadata=md_pairs(c['tm0']))
+        if 'send_trailing_metadata' in extra and c['explicit_tm']:
+            await refused('send_trailing_metadata', stream.send_trailing_metadata, metadata=md_pairs([99]))
 
     # -- client application
     async def call(self, channel):
@@ -677,44 +726,88 @@ class Call:
                 if c['card'][1] == 'U':
                     return
             out['overrun'] = True
+        app = c.get('app') or {}
+        style, catch = app.get('style', 'explicit'), app.get('catch', False)
+        out['errors'] = []
+
+        def tag(e):
+            return e.status.name if isinstance(e, GRPCError) else exc_name(e)
+
+        async def step(op, fn, *a, **kw):
+            """one application operation; a `catching` application handles the error and carries on"""
+            if not catch:
+                await fn(*a, **kw)
+                return
+            try:
+                await fn(*a, **kw)
+            except Exception as e:
+                out['errors'].append([op, tag(e)])
+        ref = {}
         try:
-            async with m.open(metadata=md_pairs(c['md0'])) as s:
-                try:
-                    if mid:
-                        await s.send_request()
-                        for r in c['reqs'][:mid[0]]:
-                            await s.send_message(bytes(r))
-                        await s.recv_initial_metadata()
-                        for _ in range(mid[1]):
-                            msg = await s.recv_message()
-                            if msg is None:
-                                break
-                            out['replies'].append(list(msg))
-                        out['at_gate'] = True
-                        await self.gate.wait()
-                        rest = c['reqs'][mid[0]:]
-                        for i, r in enumerate(rest):
-                            await s.send_message(bytes(r), end=(i == len(rest) - 1))
-                        if not rest:
-                            await s.end()
-                    else:
-                        if not c['reqs']:
-                            await s.send_request(end=True)
-                        for i, r in enumerate(c['reqs']):
-                            await s.send_message(bytes(r), end=(i == len(c['reqs']) - 1))
-                        await s.recv_initial_metadata()
-                    await drain(s)
-                    await s.recv_trailing_metadata()
-                finally:
-                    if s.initial_metadata is not None:
-                        out['im'] = md_tags(s.initial_metadata.items())
-                    if s.trailing_metadata is not None:
-                        out['tm'] = md_tags(s.trailing_metadata.items())
-            out['status'] = 'OK'
-        except GRPCError as e:
-            out['status'] = e.status.name
+            try:
+                if style == 'stub' and not mid:
+                    # the generated-stub entry points: await method(request[s])
+                    msgs = [bytes(r) for r in c['reqs']]
+                    out['no_metadata_view'] = out['no_replies_view'] = True
+                    r = await m(msgs if c['card'][0] == 'S' else msgs[0], metadata=md_pairs(c['md0']))
+                    for x in (r if c['card'][1] == 'S' else [r]):
+                        out['replies'].append(list(x) if isinstance(x, (bytes, bytearray)) else repr(x))
+                    del out['no_replies_view']
+                else:
+                    async with m.open(metadata=md_pairs(c['md0'])) as s:
+                        ref['s'] = s
+                        if mid:
+                            await step('send_request', s.send_request)
+                            for r in c['reqs'][:mid[0]]:
+                                await step('send_message', s.send_message, bytes(r))
+                            await step('recv_initial_metadata', s.recv_initial_metadata)
+                            for _ in range(mid[1]):
+                                msg = await s.recv_message()
+                                if msg is None:
+                                    break
+                                out['replies'].append(list(msg))
+                            out['at_gate'] = True
+                            await self.gate.wait()
+                            rest = c['reqs'][mid[0]:]
+                            for i, r in enumerate(rest):
+                                await step('send_message', s.send_message, bytes(r), end=(i == len(rest) - 1))
+                            if not rest:
+                                await step('end', s.end)
+                        else:
+                            if not c['reqs']:
+                                await step('send_request', s.send_request, end=True)
+                            for i, r in enumerate(c['reqs']):
+                                await step('send_message', s.send_message, bytes(r),
+                                           end=(i == len(c['reqs']) - 1))
+                            if style == 'explicit':
+                                await step('recv_initial_metadata', s.recv_initial_metadata)
+                        await step('recv_message', drain, s)
+                        if style == 'explicit' or app.get('explicit_tm'):
+                            await step('recv_trailing_metadata', s.recv_trailing_metadata)
+                        # operations the library must refuse (or that find nothing left to do): a careless
+                        # application repeats them, handles the refusal and leaves the block normally
+                        for op in app.get('extra_c', []):
+                            try:
+                                if op == 'send_message':
+                                    await s.send_message(b'again')
+                                elif op == 'recv_message':
+                                    await drain(s)
+                                else:
+                                    await getattr(s, op)()
+                            except Exception as e:
+                                out.setdefault('refused', []).append([op, tag(e)])
+                out['exit'] = 'OK'
+            finally:
+                st = ref.get('s')
+                if st is not None and st.initial_metadata is not None:
+                    out['im'] = md_tags(st.initial_metadata.items())
+                if st is not None and st.trailing_metadata is not None:
+                    out['tm'] = md_tags(st.trailing_metadata.items())
         except Exception as e:
-            out['status'] = 'exc:' + type(e).__name__
+            out['exit'] = tag(e)
+        seen_tags = [t for op, t in out['errors']] + [t for op, t in out.get('refused', [])] + [out['exit']]
+        real = [t for t in seen_tags if t not in ('OK', 'ProtocolError')]
+        out['status'] = real[0] if real else ('OK' if out['exit'] in ('OK', 'ProtocolError') else out['exit'])
 
 
 def register(case, side, target, rec, call, bits):
@@ -773,7 +866,11 @@ def run_e2e(case):
                 t = loop.create_task(ends['cf'].__aenter__())
                 loop.run_quiet(1)
                 ends['channel'] = t.result()
-                ends['server'] = ends['cf']._server
+                from grpclib.server import Server as _Server
+                servers = [v for v in vars(ends['cf']).values() if isinstance(v, _Server)]
+                if len(servers) != 1:
+                    raise RuntimeError('ChannelFor does not hold exactly one Server')
+                ends['server'] = servers[0]
             return ends
 
         def do_register(ends):
@@ -829,7 +926,12 @@ def run_e2e(case):
                         ce.peer.headers(sid, P.RESP_HEADERS + md_pairs(c['im0']))
                         for r in c['reps'][:nrep]:
                             ce.peer.data(sid, P.grpc_frame(bytes(r)))
-                        ce.peer.headers(sid, [('grpc-status', status)] + md_pairs(c['tm0']), end_stream=True)
+                        if c['status'] == 'reset':
+                            loop.run_quiet(5)          # the application consumes every reply, then: RST_STREAM
+                            ce.peer.reset(sid, 2)
+                        else:
+                            ce.peer.headers(sid, [('grpc-status', status)] + md_pairs(c['tm0']),
+                                            end_stream=True)
                     data = b''.join(e.data for e in evs if isinstance(e, h2e.DataReceived)
                                     and e.stream_id == sid)
                     obs['wire_reqs'] = split_frames(data)
@@ -949,7 +1051,8 @@ def stages_of(case, active):
             reps_in = reps_in[:1]
         for j, r in enumerate(reps_in):
             add('c:RecvMessage', [r], ('client_replies', j), bool(mid) and j < mid[1])
-        add('c:RecvTrailingMetadata', [tm_in], 'client_tm')
+        if c['status'] != 'reset':
+            add('c:RecvTrailingMetadata', [tm_in], 'client_tm')
     return st
 
 
@@ -961,6 +1064,8 @@ def observed_value(run, case, observe):
         return None                       # between two real end points: seen through the next stage
     if observe == 'seen_request':
         return [seen.get('md'), seen.get('handler')]
+    if observe in ('client_im', 'client_tm') and cl.get('no_metadata_view'):
+        return None                       # the stub entry points do not expose the metadata received
     if observe == 'client_im':
         return [cl.get('im')]
     if observe == 'client_tm':
@@ -968,6 +1073,8 @@ def observed_value(run, case, observe):
     if observe in ('wire_md', 'wire_im', 'wire_tm'):
         return [obs.get(observe)]
     name, j = observe
+    if name == 'client_replies' and cl.get('no_replies_view'):
+        return None                       # the stub entry point raised: the replies it consumed are not visible
     src = {'wire_reqs': obs.get('wire_reqs'), 'wire_reps': obs.get('wire_reps'),
            'seen_reqs': seen.get('reqs'), 'client_replies': cl.get('replies')}[name]
     return [src[j] if src is not None and j < len(src) else None]
@@ -1104,6 +1211,14 @@ def check_e2e(ctx, res, cases):
                                          'server handler' if who == 'seen' else 'client', LOOP_SLACK +
                                          len(case['reqs'] if who == 'seen' else case['reps'])),
                                      'e2e-overrun', 's:RecvMessage' if who == 'seen' else 'c:RecvMessage'))
+            if run['obs'].get('seen', {}).get('accepted'):
+                fails.append(('the server accepted %r, which repeats an operation already done' %
+                              run['obs']['seen']['accepted'], 'e2e-refusal', 'call'))
+            app = case.get('app') or {}
+            res.count('e2e:app:%s%s%s' % (app.get('style', 'explicit'), '+catch' if app.get('catch') else '',
+                                          '+repeats' if app.get('extra_c') or app.get('extra_s') else ''))
+            if not run['obs'].get('done', True):
+                fails.append(('the client application did not finish', 'e2e-status', 'call'))
             if run.get('mid'):
                 res.count('e2e:run:mid-call-registration')
                 gates = run['obs'].get('at_gate', [False, False])
@@ -1112,7 +1227,7 @@ def check_e2e(ctx, res, cases):
                     fails.append(('the call did not reach the registration point', 'e2e-status', 'call'))
             # the call itself must have completed the way its shape says
             obs = run['obs']
-            want_status = 'OK' if case['status'] == 'ok' else 'INTERNAL'
+            want_status = {'ok': 'OK', 'reset': 'StreamTerminated'}.get(case['status'], 'INTERNAL')
             if 'client' in obs and obs['client'].get('status') != want_status:
                 fails.append(('client call ended with %r, expected %s' % (obs['client'].get('status'),
                                                                          want_status), 'e2e-status', 'call'))
@@ -1172,10 +1287,23 @@ def gen_e2e(rng, mode=None):
             'reqs': [msg() for _ in range(nreq)], 'reps': [msg() for _ in range(nrep)],
             'late': rng.random() < 0.35, 'second': rng.random() < 0.25, 'bits': rng.randrange(64),
             'listeners': {}}
+    # the application programs: explicit / implicit receive steps / stub entry point; errors handled
+    # inside the `async with` block (then the block is left normally); operations repeated after they are done
+    case['app'] = {
+        'style': rng.choice(['explicit', 'explicit', 'implicit', 'implicit', 'stub']),
+        'catch': rng.random() < 0.45, 'explicit_tm': rng.random() < 0.5,
+        'extra_c': [op for op in ('send_request', 'send_message', 'recv_initial_metadata',
+                                  'recv_trailing_metadata', 'end') if rng.random() < 0.15],
+        'extra_s': [op for op in ('send_initial_metadata', 'send_message', 'send_trailing_metadata')
+                    if rng.random() < 0.2]}
+    if mode == 'client' and not mid and rng.random() < 0.15:
+        case['status'] = 'reset'                 # the scripted server resets the stream after its replies
     if mid:
         case['mid'] = mid
         case['explicit_im'] = True
         case['late'] = False
+        if case['app']['style'] == 'stub':
+            case['app']['style'] = 'explicit'
     if mode == 'client':
         # the scripted server always states im0 / tm0
         case['explicit_im'] = case['explicit_tm'] = True
@@ -1217,6 +1345,8 @@ def run(ctx):
                 '(event, listeners registered, listeners invoked, how the loop ended, fields assigned)')
     old = logging.root.manager.disable
     logging.disable(logging.CRITICAL)
+    FLAG_SLOT[0] = has_flag_slot()
+    dispatch_class('C'), dispatch_class('S')
     try:
         corpus = [normalise(c) for c in ctx.corpus()]
         direct = [c for c in corpus if c.get('kind') == 'direct']
@@ -1241,6 +1371,7 @@ def run(ctx):
 def replay(ctx, case):
     res = Result()
     case = normalise(case)
+    dispatch_class('C'), dispatch_class('S')
     old = logging.root.manager.disable
     logging.disable(logging.CRITICAL)
     try:
